@@ -484,6 +484,103 @@ func checkC11(p *Prog, rp *Report) {
 			fillProblems(tx, "control.ParagraphReader.Next", pos, problems, "4 texts without a final line terminator (one and two paragraphs, a folded last field): every field of the last line is returned")
 		}
 	}
+	// C11-ARMOR: a clearsigned block that does not start at the first byte of the input (a blank line, a comment or
+	// a plain paragraph comes first) is not recognised by the constructor's look at the first bytes. Read with a
+	// keyring, such input must not hand out the text between the armor lines unless a verification took place.
+	{
+		ar := rp.Rule("C11-ARMOR", "with a keyring, text inside an armor that does not start the input is handed out only after a verification", 1)
+		ctor := p.Func("control", "NewParagraphReader")
+		nextFn := p.Method("control", "ParagraphReader", "Next")
+		if ctor == nil || nextFn == nil {
+			ar.bad("control.NewParagraphReader", "", "function not found", nil)
+		} else {
+			block := []string{"-----BEGIN PGP SIGNED MESSAGE-----\n", "Hash: SHA256\n", "\n", "Source: inside-the-armor\n", "-----BEGIN PGP SIGNATURE-----\n", "\n", "iQEzBAEBCAAdFiEE\n", "=abcd\n", "-----END PGP SIGNATURE-----\n"}
+			var problems []string
+			undecA := ""
+			for _, lead := range [][]string{{"\n"}, {"\r\n"}, {"\n", "\n"}, {"# a comment\n"}, {"Package: before\n", "\n"}} {
+				doc := append(append([]string{}, lead...), block...)
+				m := readerMachine(p, doc)
+				verified := false
+				m.Hooks["bufio.NewReader"] = func(m *Machine, st *State, call *ssa.CallCommon, args []Val) ([]Val, bool) {
+					id := st.alloc(types.Typ[types.Int], OpaqueV{"bufio"})
+					return []Val{Ptr{Obj: id}}, true
+				}
+				took := func(m *Machine, st *State, call *ssa.CallCommon, args []Val) ([]Val, bool) {
+					// the implementation found the armor after all and takes the signed path: the other rules decide that
+					verified = true
+					return nil, false
+				}
+				for _, n := range []string{"io/ioutil.ReadAll", "io.ReadAll", "golang.org/x/crypto/openpgp/clearsign.Decode", "golang.org/x/crypto/openpgp.CheckDetachedSignature", "golang.org/x/crypto/openpgp.CheckArmoredDetachedSignature"} {
+					m.Hooks[n] = took
+				}
+				st := initState(m, "control")
+				if st.Status == stStuck {
+					undecA = st.Msg
+					break
+				}
+				ifT := types.NewPointer(types.Typ[types.Int])
+				e := st.alloc(types.Typ[types.Int], OpaqueV{"a-key"})
+				arr := st.alloc(types.NewArray(ifT, 1), &ArrayV{E: []Val{Ptr{Obj: e}}})
+				kr := Ptr{Obj: st.alloc(types.NewSlice(ifT), SliceV{Obj: arr, Len_: 1, Cap: 1})}
+				st.Status = stRun
+				st.push(ctor, []Val{IfaceV{T: ifT, V: OpaqueV{"the-input"}}, kr}, nil)
+				out := m.Run(st)
+				if verified {
+					continue
+				}
+				if len(out) != 1 || out[0].Status != stRet {
+					undecA = fmt.Sprintf("document %q: NewParagraphReader: %s", strings.Join(doc, ""), retDesc(out))
+					break
+				}
+				tv, ok := st.Ret.(*TupleV)
+				if !ok || len(tv.E) != 2 {
+					undecA = "unexpected result shape of NewParagraphReader"
+					break
+				}
+				if _, errNil := tv.E[1].(nilV); !errNil {
+					continue // refused: fine
+				}
+				for call := 0; call < 6 && undecA == ""; call++ {
+					st.Status = stRun
+					st.Frames = nil
+					st.push(nextFn, []Val{tv.E[0]}, nil)
+					out := m.Run(st)
+					if verified {
+						break
+					}
+					if len(out) != 1 || out[0].Status != stRet {
+						undecA = fmt.Sprintf("document %q: Next: %s", strings.Join(doc, ""), retDesc(out))
+						break
+					}
+					nt, ok := st.Ret.(*TupleV)
+					if !ok || len(nt.E) != 2 {
+						undecA = "unexpected result shape of Next"
+						break
+					}
+					if _, isErr := nt.E[1].(IfaceV); isErr {
+						break // an error or the end of the input
+					}
+					got, why := paraOf(st, p, nt.E[0])
+					if why != "" {
+						undecA = why
+						break
+					}
+					if _, has := got.values["Source"]; has {
+						problems = append(problems, fmt.Sprintf("input %q read with a keyring: paragraph %d is %s, the text between the armor lines, and no verification took place (the armor does not start the input, so the constructor reads it as plain text; the reader must then refuse the armor lines, not step over them)", strings.Join(lead, "")+"-----BEGIN PGP SIGNED MESSAGE-----...", call+1, got))
+						break
+					}
+				}
+				if undecA != "" {
+					break
+				}
+			}
+			if undecA != "" {
+				ar.undecided("control.NewParagraphReader", p.Pos(ctor.Pos()), undecA)
+			} else {
+				fillProblems(ar, "control.NewParagraphReader", p.Pos(ctor.Pos()), problems, "a clearsigned block after a blank line, a CRLF blank line, two blank lines, a comment and a plain paragraph, read with a keyring: refused, or its text is not handed out")
+			}
+		}
+	}
 	rp.Extra["scenarios"] = nscen
 	if undec != "" {
 		for _, r := range []*Rule{chk, same, repl, sgn, prop} {
